@@ -51,3 +51,7 @@ Theorem bounds_agree :
   Z.of_nat max_1xx = G.fork_max_1xx_h1 /\ G.fork_max_1xx_h2 = 5%Z /\ G.fork_max_1xx_h3 = 5%Z /\
   Z.of_nat br_size = G.fork_read_buffer.
 Proof. repeat split; reflexivity. Qed.
+
+From ReqV Require Import Model.ConnWindow.
+Theorem min_refresh_agrees : min_refresh = G.fork_inflow_min_refresh.
+Proof. reflexivity. Qed.
